@@ -3,20 +3,22 @@
    of the transcribed kernel, so that TLC's state dump is the table of expected results that the
    conformance driver replays into the real function. *)
 EXTENDS ClosestPoint
-CONSTANTS TriLo, TriHi,      \* triangle corners b, c range over TriLo..TriHi cubed; a is the origin
+CONSTANTS BLo, BHi, TriLo, TriHi,   \* corner b ranges over BLo..BHi cubed, corner c over TriLo..TriHi cubed; a is the origin
           PtLo, PtHi,        \* query point ranges over PtLo..PtHi cubed
-          Shifts             \* lattice translations applied to the whole configuration
-VARIABLES p, a, b, c, out
-vars == <<p, a, b, c, out>>
+          Shifts,            \* lattice translations applied to the whole configuration
+          TriSel(_, _)       \* further selection of the triangles (b, c) of the enumeration
+VARIABLES p, a, b, c, out, kills
+vars == <<p, a, b, c, out, kills>>
 
 Cube(l, h) == (l..h) \X (l..h) \X (l..h)
 \* canonical representatives: a = 0, and (b, c) ordered to halve the enumeration is NOT done on purpose:
 \* the kernel treats the three corners asymmetrically
 Init == /\ a = <<0, 0, 0>>
-        /\ b \in Cube(TriLo, TriHi) /\ c \in Cube(TriLo, TriHi)
-        /\ NonDegenerate(a, b, c)
+        /\ b \in Cube(BLo, BHi) /\ c \in Cube(TriLo, TriHi)
+        /\ NonDegenerate(a, b, c) /\ TriSel(b, c)
         /\ p \in Cube(PtLo, PtHi)
         /\ out = Closest(p, a, b, c)
+        /\ kills = Kills(p, a, b, c)     \* the guard conjuncts this case is decisive for
 Next == UNCHANGED vars
 Spec == Init /\ [][Next]_vars
 
@@ -25,6 +27,11 @@ RotInv    == \A g \in Rotations : SameAnswer(out, Closest(Rot(g, p), Rot(g, a), 
 TransInv  == \A t \in Shifts : LET tt == <<t, 2*t, -t>> IN
                  SameAnswer(out, Closest(Add(p, tt), Add(a, tt), Add(b, tt), Add(c, tt)))
 TwentyFour == Cardinality(Rotations) = 24
+\* selections: the whole box, or (quick tier) a thin slice of it that still contains, for every guard conjunct of the
+\* kernel that can matter, a case where it does (acute, right, and the three kinds of obtuse triangles)
+AllTris(bb, cc) == TRUE
+QuickTris(bb, cc) == \/ bb \in Cube(0, 1)
+                     \/ (cc \in Cube(0, 1) /\ Dot(cc, cc) < Dot(bb, cc))       \* obtuse at C
 Minus1 == -1
 Minus2 == -2
 ShiftSet == {-50, -7, 1, 3, 50}
